@@ -58,7 +58,12 @@ def run_group(g):
             w = dict(w)
             w.setdefault("devs", ",".join("%s=%s" % d for d in devs))
             w.setdefault("base", g.base_name)
-            res["violations"].append((w, case_files(case, r)))
+            files = case_files(case, r)
+            priv = {k: w.pop(k) for k in list(w) if k.startswith("_")}
+            if priv:
+                import json as _json
+                files["detail.json"] = _json.dumps(priv, indent=1, default=str)
+            res["violations"].append((w, files))
         key = "rc=%s" % ("timeout" if r.timeout else r.rc)
         res["outcomes"][key] = res["outcomes"].get(key, 0) + 1
         return r
